@@ -198,17 +198,17 @@ func appendEvents(path string, events []Event) error {
 	if err := repairTornTail(file); err != nil {
 		return err
 	}
+	// One buffer, one write: a multi-event command lands whole or not at all.
+	var buf []byte
 	for _, event := range events {
 		data, err := json.Marshal(event)
 		if err != nil {
 			return err
 		}
-		line := append(data, '\n')
-		if err := writeAll(file, line); err != nil {
-			return err
-		}
+		buf = append(buf, data...)
+		buf = append(buf, '\n')
 	}
-	return nil
+	return writeAll(file, buf)
 }
 
 // repairTornTail makes the log end in '\n' before new events are appended.
